@@ -708,13 +708,16 @@ fn jsonb_cases(rng: &mut Rng, thorough: bool) -> Vec<Case> {
     let big_arr: Vec<J> = (0..400).map(|i| json!(i * 7)).collect();
     docs.push(("big_array_toast".into(), J::Array(big_arr)));
     docs.push(("big_string_toast_5000".into(), J::String(gen_text(rng, "ascii", 5000))));
-    if thorough {
-        docs.push(("big_string_toast_70000".into(), J::String(gen_text(rng, "unicode", 70000))));
+    {
+        // larger than one 16 KiB page
         let mut m = serde_json::Map::new();
         for i in 0..300 {
             m.insert(format!("key{}", i), json!({"i": i, "s": gen_text(rng, "ascii", 10)}));
         }
-        docs.push(("big_object_toast".into(), J::Object(m)));
+        docs.push(("big_object_over_page".into(), J::Object(m)));
+    }
+    if thorough {
+        docs.push(("big_string_toast_70000".into(), J::String(gen_text(rng, "unicode", 70000))));
     }
     for _ in 0..(if thorough { 12 } else { 5 }) {
         docs.push(("random_doc".into(), gen_json(rng, 3)));
@@ -799,7 +802,7 @@ pub fn build_plans(rng: &mut Rng, quick: bool, miri: bool) -> Vec<Plan> {
     let thorough = !quick;
     let mut plans: Vec<Plan> = vec![];
     let mut add = |ty: &'static str, col: &str, rdt: RDT, cases: Vec<Case>| plans.push(Plan { ty, col: col.to_string(), rdt, cases, no_update_over: false });
-    let rounds = if quick { 1 } else { 3 };
+    let rounds = if quick { 1 } else { 4 };
     for round in 0..rounds {
         add("BOOLEAN", "BOOLEAN", RDT::Bool, vec![case("true", Some("TRUE".into()), Some(OV::Bool(true)), Exp::Exact(OV::Bool(true))), case("false", Some("FALSE".into()), Some(OV::Bool(false)), Exp::Exact(OV::Bool(false)))]);
         add("SMALLINT", "SMALLINT", RDT::Int2, int_cases(rng, i16::MIN as i64, i16::MAX as i64, "i16"));
@@ -825,7 +828,7 @@ pub fn build_plans(rng: &mut Rng, quick: bool, miri: bool) -> Vec<Plan> {
         } else if quick {
             &[1, 3, 128, 300]
         } else {
-            &[1, 2, 3, 16, 128, 250, 251, 768, 1536]
+            &[1, 2, 3, 16, 128, 250, 251, 768, 1536, 4200]
         };
         for &d in dims {
             add("VECTOR", &format!("VECTOR({})", d), RDT::Vector, vector_cases(rng, d));
@@ -1124,6 +1127,8 @@ fn run_plan(ctx: &Sink, path: &std::path::Path, idx: usize, plan: &Plan, rng: &m
             return;
         }
     };
+    // no crash is involved (close + reopen only): skip the fsync per statement
+    let _ = db.exec("PRAGMA synchronous = OFF");
     let create = format!("CREATE TABLE t (id INT PRIMARY KEY, v {}, pad TEXT)", plan.col);
     if let Err(e) = db.exec(&create) {
         let w = what_of_err(&e);
@@ -1135,6 +1140,7 @@ fn run_plan(ctx: &Sink, path: &std::path::Path, idx: usize, plan: &Plan, rng: &m
     // primary key, INSERT from the row id; the aliasing of the two is probed by its own scenario
     let mut next_id: i64 = 1_000_001;
     let mut written: Vec<Variant> = vec![];
+    let mut overwrite_later: Vec<(usize, &'static str, i64, Vec<String>)> = vec![];
     for (ci, c) in plan.cases.iter().enumerate() {
         let mut combos: Vec<(&'static str, &'static str)> = vec![];
         for w in ["literal", "param"] {
@@ -1227,31 +1233,36 @@ fn run_plan(ctx: &Sink, path: &std::path::Path, idx: usize, plan: &Plan, rng: &m
                 r.ctx.sample(json!({"type": plan.col, "class": c.class, "write": write, "op": op, "statements": v.stmts.iter().map(|s| short(s, 160)).collect::<Vec<_>>(), "expected": show_exp(&c.exp)}));
             }
             if op == "insert" && c.then_overwritten {
-                // the stored value is overwritten: the UPDATE must succeed and the row must read back as NULL
-                let mut v2 = Variant { id, case_idx: ci, write, op: "then_overwritten", stmts: v.stmts.clone(), exp_override: Some(Exp::Exact(OV::Null)) };
-                let sql = format!("UPDATE t SET v = {} WHERE id = {}", if write == "literal" { "NULL" } else { "?" }, id);
-                v2.stmts.push(sql.clone());
-                r.ctx.eval();
-                r.mark(c, &v2, "write");
-                // a single-row UPDATE of a 17-byte value takes well under a millisecond
-                r.ctx.limit(8);
-                let res = if write == "literal" { exec_sql(&db, &sql) } else { exec_params(&db, &sql, &[OV::Null]) };
-                r.ctx.limit(0);
-                match res {
-                    Ok(_) => {
-                        r.mark(c, &v2, "pk");
-                        r.check(c, &v2, "pk", pk_lookup(&db, id));
-                        r.ctx.nontrivial(fnv(format!("{}|{}|{}|{}|then_overwritten", plan.ty, plan.col, c.class, write).as_bytes()));
-                        written.push(v2);
-                    }
-                    Err(e) => {
-                        let w = what_of_err(&e);
-                        r.report(c, &v2, "write", &w, None, Some(&e));
-                    }
-                }
-                continue;
+                overwrite_later.push((ci, write, id, v.stmts.clone()));
             }
             written.push(v);
+        }
+    }
+    // rows that are overwritten after everything else in this plan was written and read
+    for (ci, write, id, stmts) in overwrite_later {
+        let c = &plan.cases[ci];
+        // the stored value is overwritten: the UPDATE must succeed and the row must read back as NULL
+        let mut v2 = Variant { id, case_idx: ci, write, op: "then_overwritten", stmts, exp_override: Some(Exp::Exact(OV::Null)) };
+        let sql = format!("UPDATE t SET v = {} WHERE id = {}", if write == "literal" { "NULL" } else { "?" }, id);
+        v2.stmts.push(sql.clone());
+        r.ctx.eval();
+        r.mark(c, &v2, "write");
+        // a single-row UPDATE of a 17-byte value takes well under a millisecond
+        r.ctx.limit(8);
+        let res = if write == "literal" { exec_sql(&db, &sql) } else { exec_params(&db, &sql, &[OV::Null]) };
+        r.ctx.limit(0);
+        written.retain(|w| w.id != id);
+        match res {
+            Ok(_) => {
+                r.mark(c, &v2, "pk");
+                r.check(c, &v2, "pk", pk_lookup(&db, id));
+                r.ctx.nontrivial(fnv(format!("{}|{}|{}|{}|then_overwritten", plan.ty, plan.col, c.class, write).as_bytes()));
+                written.push(v2);
+            }
+            Err(e) => {
+                let w = what_of_err(&e);
+                r.report(c, &v2, "write", &w, None, Some(&e));
+            }
         }
     }
     if let Ok(dir) = std::env::var("TV_DUMP_DIR") {
@@ -1310,6 +1321,7 @@ fn scenario_pk_vs_rowid(ctx: &Sink, path: &std::path::Path, ty: &'static str, co
             (lit_text(&t), OV::Text(t))
         }
     };
+    let _ = db.exec("PRAGMA synchronous = OFF");
     let create = format!("CREATE TABLE t (id INT PRIMARY KEY, v {})", col);
     let mut log = vec![create.clone()];
     if db.exec(&create).is_err() {
